@@ -1,4 +1,6 @@
 import QuiverModel.Lemmas.Num.Kernel
+import QuiverModel.Lemmas.Num.Surd
+import QuiverModel.Lemmas.Num.Round
 /-
 C20 — the num module computes exactly and propagates absence.
 Property theorems about M-Num (`QuiverModel.Core.Num`, the hand translation of std/num.qv that the
@@ -236,5 +238,188 @@ example : Num.add (some (.rat 1 2)) (some (.int 3)) = .ok (some (.rat 7 2)) := b
 example : Num.div (some (.int 1)) (some (.int 0)) = .ok none := by decide
 example : Canon (.rat 7 2) := by unfold Canon; decide
 example : ¬ isSurd (.rat 7 2) := by simp [isSurd]
+
+/-! ### square-free decomposition (`sqfree`) -/
+
+/-- `[1, n, 2] sqfree` for `n > 0`: terminates (the fuel of the model is never exhausted) and returns
+`[k, m]` with `k²·m = n`, `k > 0`, `m` positive and square-free. -/
+theorem sqfree_spec (n : Int) (hn : 0 < n) :
+    ∃ k m, sqfree 1 n 2 = .ok (k, m) ∧ k * k * m = n ∧ 0 < k ∧ 0 < m ∧ SqFree m := by
+  obtain ⟨k, m, h1, h2, h3, h4, h5⟩ := sqfreeF_spec (n.toNat + 2) 1 n 2 (by omega) hn
+    (fun e he hed => by omega) (by omega)
+  exact ⟨k, m, h1, by rw [h2]; ring, h5 (by omega), h3, h4⟩
+
+/-- the trial-division loop terminates on every input (called as `[1, n, 2] sqfree`) -/
+theorem sqfree_terminates (n : Int) : ∃ k m, sqfree 1 n 2 = .ok (k, m) := by
+  by_cases hn : 0 < n
+  · obtain ⟨k, m, h, _⟩ := sqfree_spec n hn; exact ⟨k, m, h⟩
+  · refine ⟨1, n, ?_⟩
+    have : n < 4 := by omega
+    simp [sqfree, sqfreeF, cmp_eq_one, this]
+
+example : sqfree 1 72 2 = .ok (6, 2) := by decide
+
+/-! ### truncation, floor, ceiling, rounding (integers and rationals) -/
+
+theorem toInt_spec (x : Num) (hx : Canon x) (nx : ¬ isSurd x) :
+    ∃ t, Num.toInt (some x) = .ok (some t) ∧ IsTrunc t (toQ x) := by
+  cases x with
+  | surd a b n => exact absurd trivial nx
+  | int z =>
+    refine ⟨z, by simp [Num.toInt, toRational, iDiv_eq (show (1 : Int) ≠ 0 by decide)], ?_⟩
+    unfold IsTrunc toQ; constructor <;> intro _ <;> constructor <;> linarith
+  | rat n d =>
+    refine ⟨n.tdiv d, by simp [Num.toInt, toRational, iDiv_eq (ne_of_gt hx.1)], ?_⟩
+    exact tdiv_isTrunc n d hx.1
+
+/-- `floor`: the greatest integer ≤ x -/
+theorem floor_spec (x : Num) (hx : Canon x) (nx : ¬ isSurd x) :
+    ∃ f, Num.floor (some x) = .ok (some f) ∧ (f : ℚ) ≤ toQ x ∧ toQ x < f + 1 := by
+  obtain ⟨t, ht, htr⟩ := toInt_spec x hx nx
+  have hc := compare_spec x (.int t) hx (canon_int t) nx (not_surd_int t)
+  by_cases hlt : toQ x < t
+  · refine ⟨t - 1, ?_, ?_⟩
+    · have : sgnQ (toQ x - toQ (.int t)) = -1 := by rw [sgnQ_lt_zero, toQ_int]; linarith
+      simp [Num.floor, ht, hc, this]
+    · have hneg : toQ x ≤ 0 := by
+        by_contra h
+        have := (htr.1 (le_of_lt (not_le.mp h))).1; linarith
+      have := htr.2 hneg
+      push_cast; constructor <;> linarith
+  · refine ⟨t, ?_, ?_⟩
+    · have : sgnQ (toQ x - toQ (.int t)) ≠ -1 := by rw [Ne, sgnQ_lt_zero, toQ_int]; linarith
+      simp [Num.floor, ht, hc, this]
+    · have hge : (t : ℚ) ≤ toQ x := not_lt.mp hlt
+      refine ⟨hge, ?_⟩
+      by_cases h0 : 0 ≤ toQ x
+      · exact (htr.1 h0).2
+      · have := (htr.2 (le_of_lt (not_le.mp h0))).2; linarith
+
+/-- `ceil`: the least integer ≥ x -/
+theorem ceil_spec (x : Num) (hx : Canon x) (nx : ¬ isSurd x) :
+    ∃ c, Num.ceil (some x) = .ok (some c) ∧ (c : ℚ) - 1 < toQ x ∧ toQ x ≤ c := by
+  obtain ⟨t, ht, htr⟩ := toInt_spec x hx nx
+  have hc := compare_spec x (.int t) hx (canon_int t) nx (not_surd_int t)
+  by_cases hgt : (t : ℚ) < toQ x
+  · refine ⟨t + 1, ?_, ?_⟩
+    · have : sgnQ (toQ x - toQ (.int t)) = 1 := by rw [sgnQ_pos, toQ_int]; linarith
+      simp [Num.ceil, ht, hc, this]
+    · have hpos : 0 ≤ toQ x := by
+        by_contra h
+        have := (htr.2 (le_of_lt (not_le.mp h))).2; linarith
+      have := htr.1 hpos
+      push_cast; constructor <;> linarith
+  · refine ⟨t, ?_, ?_⟩
+    · have : sgnQ (toQ x - toQ (.int t)) ≠ 1 := by rw [Ne, sgnQ_pos, toQ_int]; linarith
+      simp [Num.ceil, ht, hc, this]
+    · have hle : toQ x ≤ t := not_lt.mp hgt
+      refine ⟨?_, hle⟩
+      by_cases h0 : toQ x ≤ 0
+      · exact (htr.2 h0).1
+      · have := (htr.1 (le_of_lt (not_le.mp h0))).1; linarith
+
+/-- `round`: nearest integer, halves away from zero -/
+theorem round_spec (x : Num) (hx : Canon x) (nx : ¬ isSurd x) :
+    ∃ r, Num.round (some x) = .ok (some r) ∧ (r : ℚ) - 1 / 2 ≤ toQ x ∧ toQ x ≤ r + 1 / 2 ∧
+      (toQ x = r - 1 / 2 → 0 < toQ x) ∧ (toQ x = r + 1 / 2 → toQ x < 0) := by
+  obtain ⟨f, hf, hf1, hf2⟩ := floor_spec x hx nx
+  have hc := compare_spec x (.rat (f * 2 + 1) 2) hx (canon_half f) nx (fun h => h)
+  have hmid : toQ (.rat (f * 2 + 1) 2) = (f : ℚ) + 1 / 2 := by
+    unfold toQ; push_cast; ring
+  rw [hmid] at hc
+  have hsg := sgnQ_cases (toQ x - ((f : ℚ) + 1 / 2))
+  generalize sgnQ (toQ x - ((f : ℚ) + 1 / 2)) = s at hc hsg
+  rcases lt_trichotomy (toQ x) ((f : ℚ) + 1 / 2) with h | h | h
+  · have e : s = -1 := hsg.1.mpr (by linarith)
+    refine ⟨f, by simp [Num.round, hf, hc, e], by linarith, by linarith, fun h' => by linarith, fun h' => by linarith⟩
+  · have e : s = 0 := hsg.2.1.mpr (by linarith)
+    by_cases hneg : f < 0
+    · have hfq : (f : ℚ) ≤ -1 := by exact_mod_cast (show f ≤ -1 by omega)
+      refine ⟨f, by simp [Num.round, hf, hc, e, cmp_eq_neg_one, hneg], by linarith, by linarith,
+        fun h' => by linarith, fun _ => by linarith⟩
+    · have hfq : (0 : ℚ) ≤ f := by exact_mod_cast (show 0 ≤ f by omega)
+      refine ⟨f + 1, by simp [Num.round, hf, hc, e, cmp_eq_neg_one, hneg], by push_cast; linarith,
+        by push_cast; linarith, fun _ => by linarith, fun h' => by push_cast at h'; linarith⟩
+  · have e : s = 1 := hsg.2.2.mpr (by linarith)
+    refine ⟨f + 1, by simp [Num.round, hf, hc, e], by push_cast; linarith, by push_cast; linarith,
+      fun h' => by push_cast at h'; linarith, fun h' => by push_cast at h'; linarith⟩
+
+/-- negation preserves kind and is exact -/
+theorem neg_spec (x : Num) (hx : Canon x) (nx : ¬ isSurd x) :
+    ∃ z, Num.neg (some x) = .ok (some z) ∧ Canon z ∧ toQ z = - toQ x ∧ kind z = kind x := by
+  cases x with
+  | surd a b n => exact absurd trivial nx
+  | int z => exact ⟨.int (-z), by simp [Num.neg], trivial, by simp [toQ], rfl⟩
+  | rat n d =>
+    obtain ⟨z, h1, h2, h3⟩ := reduce_spec (n := -n) (ne_of_gt hx.1)
+    refine ⟨z.toNum, by simp [Num.neg, h1], h2, ?_, rfl⟩
+    rw [toNum_toQ, h3]; unfold toQ; push_cast; ring
+
+/-- absolute value preserves kind and is exact -/
+theorem abs_spec (x : Num) (hx : Canon x) (nx : ¬ isSurd x) :
+    ∃ z, Num.abs (some x) = .ok (some z) ∧ Canon z ∧ toQ z = |toQ x| ∧ kind z = kind x := by
+  cases x with
+  | surd a b n => exact absurd trivial nx
+  | int z => exact ⟨.int |z|, by simp [Num.abs], trivial, by simp [toQ], rfl⟩
+  | rat n d =>
+    refine ⟨.rat |n| d, by simp [Num.abs], ⟨hx.1, ?_⟩, ?_, rfl⟩
+    · have := hx.2; simp only [Int.gcd, Int.natAbs_abs] at this ⊢; exact this
+    · have hd : (0 : ℚ) < d := by exact_mod_cast hx.1
+      unfold toQ; rw [abs_div, abs_of_pos hd]; push_cast; rfl
+
+/-! ### order-derived operations -/
+
+theorem min_spec (x y : Num) (hx : Canon x) (hy : Canon y) (nx : ¬ isSurd x) (ny : ¬ isSurd y) :
+    Num.min (some x) (some y) = .ok (some (if toQ y < toQ x then y else x)) := by
+  simp only [Num.min, compare_spec x y hx hy nx ny, ok_bind, sgnQ_sub_one, pure_eq]
+  split <;> rfl
+
+theorem max_spec (x y : Num) (hx : Canon x) (hy : Canon y) (nx : ¬ isSurd x) (ny : ¬ isSurd y) :
+    Num.max (some x) (some y) = .ok (some (if toQ x < toQ y then y else x)) := by
+  simp only [Num.max, compare_spec x y hx hy nx ny, ok_bind, sgnQ_sub_neg_one, pure_eq]
+  split <;> rfl
+
+theorem clamp_spec (x lo hi : Num) (hx : Canon x) (hl : Canon lo) (hh : Canon hi)
+    (nx : ¬ isSurd x) (nl : ¬ isSurd lo) (nh : ¬ isSurd hi) :
+    Num.clamp (some x) (some lo) (some hi) =
+      .ok (some (if toQ x < toQ lo then lo else if toQ hi < toQ x then hi else x)) := by
+  simp only [Num.clamp, compare_spec x lo hx hl nx nl, compare_spec x hi hx hh nx nh, ok_bind,
+    sgnQ_sub_one, sgnQ_sub_neg_one, pure_eq]
+  split
+  · rfl
+  · split <;> rfl
+
+theorem sign_spec (x : Num) (hx : Canon x) (nx : ¬ isSurd x) :
+    Num.sign (some x) = .ok (some (sgnQ (toQ x))) := by
+  have := compare_spec x (.int 0) hx trivial nx (fun h => h)
+  simpa [Num.sign, toQ_int] using this
+
+/-- the five predicates decide the order of ℚ (`some ()` is `Ok`, `none` is nil) -/
+theorem predicates_spec (x y : Num) (hx : Canon x) (hy : Canon y) (nx : ¬ isSurd x) (ny : ¬ isSurd y) :
+    Num.eqQ (some x) (some y) = .ok (if toQ x = toQ y then some () else none) ∧
+    Num.ltQ (some x) (some y) = .ok (if toQ x < toQ y then some () else none) ∧
+    Num.leQ (some x) (some y) = .ok (if toQ x ≤ toQ y then some () else none) ∧
+    Num.gtQ (some x) (some y) = .ok (if toQ y < toQ x then some () else none) ∧
+    Num.geQ (some x) (some y) = .ok (if toQ y ≤ toQ x then some () else none) := by
+  have hc := compare_spec x y hx hy nx ny
+  rcases lt_trichotomy (toQ x) (toQ y) with h | h | h
+  · have e : sgnQ (toQ x - toQ y) = -1 := sgnQ_sub_neg_one.mpr h
+    simp [Num.eqQ, Num.ltQ, Num.leQ, Num.gtQ, Num.geQ, hc, e, h, ne_of_lt h, le_of_lt h, not_lt.mpr (le_of_lt h), not_le.mpr h]
+  · have e : sgnQ (toQ x - toQ y) = 0 := sgnQ_sub_zero.mpr h
+    simp only [Num.eqQ, Num.ltQ, Num.leQ, Num.gtQ, Num.geQ, hc, e, ok_bind, pure_eq]
+    simp [h]
+  · have e : sgnQ (toQ x - toQ y) = 1 := sgnQ_sub_one.mpr h
+    simp [Num.eqQ, Num.ltQ, Num.leQ, Num.gtQ, Num.geQ, hc, e, h, ne_of_gt h, le_of_lt h, not_lt.mpr (le_of_lt h), not_le.mpr h]
+
+/-- `numer` / `denom` are numerator and denominator of the value in lowest terms -/
+theorem numer_denom_spec (x : Num) (hx : Canon x) (nx : ¬ isSurd x) :
+    Num.numer (some x) = .ok (some (toQ x).num) ∧ Num.denom (some x) = .ok (some ((toQ x).den : Int)) := by
+  cases x with
+  | surd a b n => exact absurd trivial nx
+  | int z => simp [Num.numer, Num.denom, toQ]
+  | rat n d =>
+    have h1 := Rat.num_div_eq_of_coprime hx.1 hx.2
+    have h2 := Rat.den_div_eq_of_coprime hx.1 hx.2
+    simp only [Num.numer, Num.denom, toQ, h1, h2, pure_eq, and_self]
 
 end C20
